@@ -6,10 +6,12 @@ from __future__ import annotations
 import ast
 
 from ..cfg import CFG
-from ..core import AnalysisError, const_value
-from ..defuse import DefUse, Terms, show
+from ..core import AnalysisError, const_value, walk_own
+from ..defuse import DefUse, Terms, show, walk_term
+from ..events import container_events, root_name
+from ..tutil import EvUnknown, ev_term, no_uids, simp
 from ..memo import check_no_cross_call_state
-from ..astutil import live
+from ..astutil import inside, live
 
 EXPLANATION = (
     "Static analysis of parsers.fasta.read_fasta and _group_proteins. (a) "
@@ -52,221 +54,349 @@ def run(ctx):
          and not isinstance(prog.funcs[q].node, ast.Lambda)], "FASTA read")
 
 
+def _strip_growth(t):
+    while t[0] in ("mutsub", "mut", "store"):
+        t = t[1]
+    if t[0] == "sub":
+        return ("sub", _strip_growth(t[1]), t[2])
+    return t
+
+
 def _group(ctx, f):
+    """Event-driven reading of _group_proteins."""
+    prog = ctx.prog
     p_prot, p_pep = f.params
-    loops = [n for n in f.node.body if isinstance(n, ast.For)]
-    ctx.require(len(loops) == 1, f"{f.qual}: protein loop not found")
-    lp = loops[0]
-    it = ast.unparse(lp.iter)
-    ok = it in (f"sorted({p_prot}.items(), key=lambda x: -len(x[1]))",
-                f"sorted({p_prot}.items(), key=lambda x: len(x[1]), "
-                "reverse=True)")
+    cfg = CFG(f.node)
+    du = DefUse(prog, f)
+    T = Terms(du, phi_vars=True)
+    evs = container_events(f.node, T, cfg)
+    loops = [n for n in walk_own(f.node) if isinstance(n, ast.For)]
+    outer = [n for n in loops if cfg.enclosing(n, (ast.For, ast.While))
+             is None]
+    ctx.require(len(outer) == 1, f"{f.qual}: protein loop not found")
+    lp = outer[0]
+    it = T.of(lp.iter)
+    ok = False
+    if it[0] == "call" and it[1] == "builtins.sorted" and it[2] == (
+            ("mcall", ("param", p_prot), "items", (), ()),):
+        kws = dict(it[3])
+        key = kws.get("key")
+        if key is not None and key[0] == "lambda" and len(key[1]) == 1:
+            x = ("lparam", key[1][0])
+            cnt = ("call", "builtins.len", (("sub", x, ("const", 1)),), ())
+            rev = kws.get("reverse", ("const", False))
+            ok = (key[2] == ("un", "-", cnt) and rev == ("const", False)) \
+                or (key[2] == cnt and rev == ("const", True))
     ctx.check(ok, "C16c-largest-first", f,
               "proteins are visited in non-increasing peptide count (a "
               "group can only be contained in an earlier one)",
-              f"loop over {it}", node=lp)
-    v_prot, v_peps = (e.id for e in lp.target.elts)
-    cfg = CFG(f.node)
-    # group creation sites: grouped[prot] = peps
-    gname = None
-    creates = [n for n in ast.walk(lp) if isinstance(n, ast.Assign)
-               and isinstance(n.targets[0], ast.Subscript)
-               and ast.unparse(n.targets[0].slice) == v_prot
-               and ast.unparse(n.value) == v_peps]
+              f"loop over {show(it, 120)}", node=lp)
+    PROT, PEPS = ("item", ("elem", it), 0), ("item", ("elem", it), 1)
+    rets = [t for _r, t in T.returns()]
+    ctx.require(len(rets) == 1 and rets[0][0] == "tuple"
+                and len(rets[0][1]) == 2, f"{f.qual}: expected 'return "
+                "groups, peptide map'")
+    GR = root_name(rets[0][1][0])
+    ctx.check(GR is not None and rets[0][1][1][:2] in (
+        ("param", p_pep), ("var", p_pep)), "C16d-returns-groups-and-map", f,
+        "groups and the rewritten peptide map are returned",
+        f"returns {show(rets[0], 100)}", node=f.node)
+    if GR is None:
+        return
+
+    def is_gr(t):
+        return t[0] == "var" and t[1] == GR
+
+    creates = [e for e in evs if e.kind == "store" and is_gr(e.recv)
+               and e.key == PROT and e.value == PEPS]
     ctx.require(creates, f"{f.qual}: group creation not found")
-    gname = ast.unparse(creates[0].targets[0].value)
     # candidates
-    m1 = [n for n in lp.body if isinstance(n, ast.Assign)
-          and isinstance(n.value, ast.Call)
-          and ast.unparse(n.value.func).startswith("set.")]
-    ctx.require(len(m1) == 1, f"{f.qual}: candidate intersection not found")
-    mname = ast.unparse(m1[0].targets[0])
-    ok = ast.unparse(m1[0].value) == \
-        f"set.intersection(*[{p_pep}[p] for p in {v_peps}])"
+    ren_pops = [e for e in evs if e.kind == "pop" and is_gr(e.recv)
+                and e.stmt is not None]
+    match_loops = {id(x): x for e in ren_pops
+                   for x in [cfg.enclosing(e.stmt, (ast.For,))]
+                   if x is not None and x is not lp}
+    ctx.require(len(match_loops) == 1, f"{f.qual}: per-match loop (the "
+                "loop that renames a containing group) not found")
+    ml = list(match_loops.values())[0]
+    MATCHES = T.of(ml.iter)
+    M = ("elem", MATCHES)
+    ok = ok2 = False
+    why = f"candidates are {show(MATCHES, 160)}"
+    if MATCHES[0] == "comp" and len(MATCHES[3]) == 1:
+        X = MATCHES[3][0][1]
+        conds = MATCHES[3][0][2]
+        want_x = ("call", "builtins.set.intersection",
+                  (("star", ("comp", "list",
+                             ("sub", None, ("elem", PEPS)),
+                             ((None, PEPS, ()),))),), ())
+        if X[0] in ("call", "mcall"):
+            c = X[2] if X[0] == "call" else X[3]
+            nm = X[1] if X[0] == "call" else X[2]
+            if str(nm).endswith("intersection") and len(c) >= 1 and \
+                    c[-1][0] == "star" and c[-1][1][0] == "comp":
+                cc = c[-1][1]
+                ok = (len(cc[3]) == 1 and cc[3][0][1] == PEPS
+                      and not cc[3][0][2] and cc[2][0] == "sub"
+                      and cc[2][1][:2] in (("param", p_pep), ("var", p_pep))
+                      and cc[2][2] == ("elem", PEPS))
+        el = ("elem", X)
+        ok2 = MATCHES[2] == el and len(conds) == 1 and conds[0][0] == "cmp" \
+            and conds[0][1] == "in" and conds[0][2] == el and (
+                is_gr(conds[0][3]) or (conds[0][3][0] == "mcall" and is_gr(
+                    conds[0][3][1]) and conds[0][3][2] == "keys"))
     ctx.check(ok, "C16d-candidates-contain-all-peptides", f,
               "candidate groups are those containing every peptide of the "
-              "protein (intersection over its peptides)",
-              ast.unparse(m1[0].value)[:100], node=m1[0])
-    m2 = [n for n in lp.body if isinstance(n, ast.Assign)
-          and ast.unparse(n.targets[0]) == mname and n is not m1[0]]
-    ok2 = False
-    why = "filter not found"
-    if len(m2) == 1 and isinstance(m2[0].value, ast.ListComp):
-        lc = m2[0].value
-        conds = [ast.unparse(c) for c in lc.generators[0].ifs]
-        v = lc.generators[0].target.id
-        ok2 = (ast.unparse(lc.elt) == v
-               and ast.unparse(lc.generators[0].iter) == mname
-               and conds in ([f"{v} in {gname}.keys()"],
-                             [f"{v} in {gname}"]))
-        why = (f"candidates are filtered by {conds}: a protein whose "
-               "peptide set equals (or is contained in) an existing "
-               "group's is not merged into it when the extra condition "
-               "fails")
+              "protein (intersection over its peptides)", why, node=ml)
     ctx.check(ok2, "C16d-candidate-filter", f,
-              "candidates are filtered only by 'is currently a group'", why,
-              node=m2[0] if m2 else lp)
-    # creation guarded by emptiness: not grouped / not matches, then continue
-    ok_c = True
-    for c in creates:
-        gs = [g for g in cfg.guards(c) if any(
-            g[0] is s.test for s in ast.walk(lp) if isinstance(s, ast.If))]
-        txt = [ast.unparse(g[0]) for g in gs if g[1]]
-        if txt not in ([f"not {gname}"], [f"not {mname}"]):
-            ok_c = False
-    ctx.check(ok_c and len(creates) == 2, "C16d-new-group-iff-uncontained",
+              "candidates are filtered only by 'is currently a group'",
+              why + ": a protein whose peptide set equals (or is contained "
+              "in) an existing group's is not merged into it when an extra "
+              "condition fails", node=ml)
+    # creation / renaming conditions over (groups exist, candidates exist)
+    def lconds(stmt):
+        out = []
+        for t, o in cfg.necessary_conditions(stmt):
+            if inside(t, lp):
+                tt = simp(T.of(t))
+                while tt[0] == "un" and tt[1] == "not":
+                    tt, o = tt[2], not o
+                out.append((tt, o))
+        return out
+
+    pops = [e for e in evs if e.kind == "pop" and is_gr(e.recv)
+            and e.args == (M,)]
+    bad = []
+    try:
+        for g, m in ((False, False), (True, False), (True, True)):
+            def atoms(t, g=g, m=m):
+                if is_gr(t):
+                    return g
+                if t == MATCHES:
+                    return m
+                raise KeyError(t)
+            made = [e for e in creates if all(
+                bool(ev_term(t, atoms)) == o for t, o in lconds(e.stmt))]
+            ren = all(bool(ev_term(t, atoms)) == o
+                      for t, o in lconds(ml)) and bool(pops)
+            want_new = (not g) or (not m)
+            if (len(made) == 1) != want_new or ren != (not want_new):
+                bad.append({"groups exist": g, "candidates": m,
+                            "new group": len(made), "renames": ren})
+    except (EvUnknown, KeyError) as e:
+        bad.append(f"cannot evaluate {str(e)[:80]}")
+    ctx.check(not bad, "C16d-new-group-iff-uncontained",
               f, "a protein founds a new group exactly when no group "
-              "exists yet or none contains it",
-              f"creation guards: "
-              f"{[[ast.unparse(g[0]) for g in cfg.guards(c)] for c in creates]}",
-              node=lp)
-    # rename loop
-    ml = [n for n in lp.body if isinstance(n, ast.For)
-          and ast.unparse(n.iter) == mname]
-    ctx.require(len(ml) == 1, f"{f.qual}: per-match loop not found")
-    ml = ml[0]
-    v_m = ml.target.id
-    body = ml.body
-    nn = [s for s in body if isinstance(s, ast.Assign)
-          and "join" in ast.unparse(s.value)]
-    ok_n = len(nn) == 1 and ast.unparse(nn[0].value) in (
-        f"', '.join([{v_m}, {v_prot}])",)
+              "exists yet or none contains it", f"deviates: {bad}", node=lp)
+    ctx.check(not bad, "C16d-every-protein-placed", f,
+              "every visited protein is placed in a new or an existing "
+              "group", f"deviates: {bad}", node=lp)
+    # rename
+    NEW = ("mcall", ("const", ", "), "join", (("list", (M, PROT)),), ())
+    moves = [e for e in evs if e.kind == "store" and root_name(e.recv) == GR
+             and e.key != PROT]
+    ok_n = len(moves) == 1 and moves[0].key == NEW
     ctx.check(ok_n, "C16d-group-name", f,
               "the renamed group lists the old members followed by the new "
-              "protein", f"{[ast.unparse(s.value) for s in nn]}", node=ml)
-    if not ok_n:
-        return
-    newn = ast.unparse(nn[0].targets[0])
-    ren = [s for s in body if isinstance(s, ast.Assign)
-           and ast.unparse(s.targets[0]) == f"{gname}[{newn}]"]
-    ok_r = len(ren) == 1 and ast.unparse(ren[0].value) == \
-        f"{gname}.pop({v_m})"
+              "protein", f"{[show(e.key, 100) for e in moves]}", node=ml)
+    ok_r = ok_n and len(pops) == 1 and moves[0].value == (
+        "mcall", pops[0].recv, "pop", (M,), ()) and inside(
+            moves[0].stmt, ml)
     ctx.check(ok_r, "C16d-rename-keeps-peptides", f,
               "renaming moves the group's peptide set under the new name "
               "(no peptide lost, old name gone)",
-              f"{[ast.unparse(s)[:80] for s in ren]}", node=ml)
+              f"{[show(e.value, 100) for e in moves]}", node=ml)
+    if not ok_n:
+        return
     # peptide-map rewrite inside the per-match loop
-    pl = [s for s in body if isinstance(s, ast.For)]
-    ok_p = False
+    pm = [e for e in evs if root_name(e.recv) == p_pep]
+    ok_p = bool(pm) and all(e.stmt is not None and inside(e.stmt, ml)
+                            for e in pm)
     why = ("the peptide-map update is not inside the per-match loop: when "
            "a protein is contained in several groups only one of them is "
            "rewritten and the others keep pointing at stale names")
-    if len(pl) == 1 and ast.unparse(pl[0].iter) == f"{gname}[{newn}]":
-        v_p = pl[0].target.id
-        stm = [ast.unparse(s) for s in live(pl[0].body, f.node)]
-        want = [f"{p_pep}[{v_p}].remove({v_m})",
-                f"if {v_prot} in {p_pep}[{v_p}]:\n    "
-                f"{p_pep}[{v_p}].remove({v_prot})",
-                f"{p_pep}[{v_p}].add({newn})"]
-        alt = [f"{p_pep}[{v_p}].remove({v_m})",
-               f"{p_pep}[{v_p}].discard({v_prot})",
-               f"{p_pep}[{v_p}].add({newn})"]
-        ok_p = stm == want or stm == alt
-        why = f"per-peptide update is {stm}"
+    if ok_p:
+        seen = {}
+        for e in pm:
+            r = _strip_growth(e.recv)
+            k = r[2] if r[0] == "sub" else None
+            over = k[1] if k and k[0] == "elem" else None
+            # iterating the renamed group's peptides: grouped[NEW]
+            okk = over is not None and _strip_growth(over)[0] == "sub" and \
+                _strip_growth(over)[2] == NEW and root_name(over) == GR
+            pl = cfg.enclosing(e.stmt, (ast.For,))
+            cs = [(T.of(t), o)
+                  for t, o in cfg.necessary_conditions(e.stmt)
+                  if pl is not None and inside(t, pl)]
+            seen.setdefault((e.kind, e.args), []).append((okk, cs, r))
+        def has(kind, arg, guarded_ok=False):
+            for okk, cs, r in seen.get((kind, (arg,)), []):
+                if not okk:
+                    continue
+                if not cs:
+                    return True
+                if guarded_ok and len(cs) == 1 and cs[0][1] and \
+                        cs[0][0][0] == "cmp" and cs[0][0][1] == "in" and \
+                        cs[0][0][2] == arg and no_uids(_strip_growth(
+                            cs[0][0][3])) == no_uids(r):
+                    return True
+            return False
+        ok_p = (has("remove", M) and has("add", NEW)
+                and (has("discard", PROT) or has("remove", PROT, True))
+                and len(pm) == 3)
+        why = "per-peptide updates are " + str(
+            [(k, [show(a, 40) for a in args]) for k, args in seen])
     ctx.check(ok_p, "C16d-peptide-map-rewritten-per-match", f,
               "for every renamed group, each of its peptides drops the old "
               "group name and the bare member and gains the new name",
               why, node=ml)
-    rets = [n for n in ast.walk(f.node) if isinstance(n, ast.Return)]
-    ctx.check(len(rets) == 1 and ast.unparse(rets[0].value) ==
-              f"({gname}, {p_pep})", "C16d-returns-groups-and-map", f,
-              "groups and the rewritten peptide map are returned",
-              f"{[ast.unparse(r) for r in rets]}", node=f.node)
-    # every path through the loop body creates or renames
-    first = cfg.node_of(lp.body[0]).id
-    hdr = cfg.node_of(lp).id
-    through = {cfg.node_of(c).id for c in creates} | {cfg.node_of(ml).id}
-    ctx.check(cfg.every_path_passes(first, hdr, through) or first in through,
-              "C16d-every-protein-placed", f,
-              "every visited protein is placed in a new or an existing "
-              "group", "some path through the loop body places the protein "
-              "nowhere", node=lp)
+
+
+def _loop_conds(cfg, T, stmt):
+    """conditions decided inside the outermost loop around ``stmt``"""
+    loops = cfg.enclosing_all(stmt, (ast.For, ast.While))
+    if not loops:
+        return []
+    outer = loops[-1] if inside(loops[0], loops[-1]) else loops[0]
+    out = []
+    for t, o in cfg.necessary_conditions(stmt):
+        if inside(t, outer) and t is not getattr(outer, "test", None):
+            tt = simp(T.of(t))
+            while tt[0] == "un" and tt[1] == "not":
+                tt, o = tt[2], not o
+            out.append((tt, o))
+    return out
 
 
 def _read_fasta(ctx, f):
+    """Event-driven: what is stored into the maps that reach Proteins(...),
+    under which conditions."""
+    prog = ctx.prog
     cfg = CFG(f.node)
-    # proteins enter iff digest non-empty
-    loops = [n for n in f.node.body if isinstance(n, ast.For)]
-    ctx.require(loops, f"{f.qual}: entry loop not found")
-    el = loops[0]
-    ifs = [s for s in el.body if isinstance(s, ast.If)]
-    ok = False
-    if len(ifs) == 1 and isinstance(ifs[0].test, ast.Name):
-        pv = ifs[0].test.id
-        body = [ast.unparse(s) for s in live(ifs[0].body, f.node)]
-        ok = body[0] == f"proteins[prot] = {pv}" and any(
-            "peptides[pep].add(prot)" in b for b in body) and not \
-            ifs[0].orelse
-    ctx.check(ok, "C16d-protein-enters-iff-digested", f,
-              "a protein and its peptides are recorded iff its digest is "
-              "non-empty", "entry condition changed", node=el)
-    # unique vs shared
-    sl = [n for n in f.node.body if isinstance(n, ast.For)
-          and ast.unparse(n.iter) == "peptides.items()"]
-    ctx.require(len(sl) == 1, f"{f.qual}: unique/shared loop not found")
-    sl = sl[0]
-    v_pep, v_prots = (e.id for e in sl.target.elts)
-    ifs = [s for s in sl.body if isinstance(s, ast.If)]
-    ctx.require(len(ifs) == 1, f"{f.qual}: unique/shared split not found")
-    s = ifs[0]
-    bad = []
-    from .c17 import _Len
-    for n in (1, 2, 3):
-        env = {f"len({v_prots})": n}
-        uniq = bool(_Len(env).ev(s.test))
-        if uniq != (n == 1):
-            bad.append((n, uniq))
-    then = [ast.unparse(x) for x in s.body]
-    els = [ast.unparse(x) for x in s.orelse]
-    ok = not bad and then == [
-        f"unique_peptides[{v_pep}] = next(iter({v_prots}))"] and els in (
-        [f"shared_peptides[{v_pep}] = '; '.join(sorted({v_prots}))"],)
-    ctx.check(ok, "C16b-unique-shared-split", f,
-              "a peptide is unique iff exactly one group contains it (then "
-              "mapped to that group), otherwise shared and listing all its "
-              "groups in sorted order",
-              f"test '{ast.unparse(s.test)}' {bad}; then {then}; else {els}",
-              node=s)
-    # decoy pairing
-    dl = [n for n in f.node.body if isinstance(n, ast.For)
-          and ast.unparse(n.iter) == "proteins"]
-    ctx.require(len(dl) == 1, f"{f.qual}: pairing loop not found")
-    dl = dl[0]
-    pv = dl.target.id
-    ifs = [x for x in dl.body if isinstance(x, ast.If)]
-    ok = False
-    if len(ifs) == 1:
-        t = ast.unparse(ifs[0].test)
-        body = [ast.unparse(x) for x in ifs[0].body]
-        ok = (t == f"not {pv}.startswith(decoy_prefix)"
-              and f"decoy = decoy_prefix + {pv}" in body
-              and f"decoy_map[{pv}] = decoy" in body)
-    ctx.check(ok, "C16b-decoy-pairing", f,
-              "every non-decoy protein is paired with decoy_prefix + its "
-              "name", "pairing changed", node=dl)
-    # grouping result feeds the split; Proteins gets the right maps
+    du = DefUse(prog, f)
+    T = Terms(du, phi_vars=True)
+    evs = container_events(f.node, T, cfg)
     call = [n for n in ast.walk(f.node) if isinstance(n, ast.Call)
             and ast.unparse(n.func) == "Proteins"]
+    ctx.require(len(call) == 1, f"{f.qual}: Proteins(...) not found")
+    kw = {k.arg: T.of(k.value) for k in call[0].keywords}
+    U, S, D = (root_name(kw.get(k, ("x",))) for k in (
+        "peptide_map", "shared_peptides", "protein_map"))
+    gp = [t for n in ast.walk(f.node) if isinstance(n, ast.Call)
+          for t in [T.of(n)] if t[0] == "call"
+          and t[1] == FA + "_group_proteins"]
+    ctx.require(len(gp) == 1 and len(gp[0][2]) == 2,
+                f"{f.qual}: _group_proteins call not found")
+    G = gp[0]
+    PROTEINS, PEPTIDES = root_name(G[2][0]), root_name(G[2][1])
+    if PROTEINS is None:
+        vs = {x[1] for x in walk_term(G[2][0]) if isinstance(x, tuple)
+              and x and x[0] == "var"}
+        PROTEINS = vs.pop() if len(vs) == 1 else None
+    ctx.require(None not in (U, S, D, PROTEINS, PEPTIDES)
+                and len({U, S, D, PROTEINS, PEPTIDES}) == 5,
+                f"{f.qual}: the maps handed to Proteins / _group_proteins "
+                "are not five distinct local containers")
+
+    def by_root(name):
+        return [e for e in evs if root_name(e.recv) == name]
+
+    # ---- proteins enter iff their digest is non-empty
+    pe, pp = by_root(PROTEINS), by_root(PEPTIDES)
     ok = False
-    if len(call) == 1:
-        kw = {k.arg: ast.unparse(k.value) for k in call[0].keywords}
-        ok = kw == {"decoy_prefix": "decoy_prefix",
-                    "peptide_map": "unique_peptides",
-                    "shared_peptides": "shared_peptides",
-                    "protein_map": "decoy_map", "has_decoys": "has_decoys"}
+    why = (f"updates of {PROTEINS}: {[e.kind for e in pe]}; of {PEPTIDES}: "
+           f"{[e.kind for e in pp]}")
+    if len(pe) == 1 and len(pp) == 1 and pe[0].kind == "store" and \
+            pp[0].kind == "add":
+        dig, prot = pe[0].value, pe[0].key
+        src = pp[0].recv
+        keyt = src[2] if src[0] == "sub" else None
+        over = keyt[1] if keyt and keyt[0] == "elem" else None
+        if over is not None and over[0] == "call" and \
+                over[1] == "builtins.sorted" and over[2]:
+            over = over[2][0]
+        c1, c2 = _loop_conds(cfg, T, pe[0].stmt), _loop_conds(
+            cfg, T, pp[0].stmt)
+        ok = (dig[0] == "call" and dig[1] == FA + "digest"
+              and prot[0] == "item" and prot[2] == 0
+              and prot[1][0] == "call" and prot[1][1] == FA +
+              "_parse_protein" and dig[2][:1] == (("item", prot[1], 1),)
+              and over == dig and pp[0].args == (prot,)
+              and c1 == [(dig, True)] and c2 == [(dig, True)])
+        why = (f"{PROTEINS}[{show(prot, 50)}] = {show(dig, 60)} under "
+               f"{[show(c, 50) for c in c1]}; {show(src, 80)}.add("
+               f"{[show(a, 50) for a in pp[0].args]}) under "
+               f"{[show(c, 50) for c in c2]}")
+    ctx.check(ok, "C16d-protein-enters-iff-digested", f,
+              "a protein and its peptides are recorded iff its digest is "
+              "non-empty", why, node=pe[0].node if pe else f.node)
+    # ---- unique vs shared, decided on the grouped peptide map
+    GP = ("item", G, 1)
+    KEY, VAL = ("key", GP), ("value", GP)
+    ue, se = by_root(U), by_root(S)
+    bad = []
+    ok = len(ue) == 1 and len(se) == 1 and ue[0].kind == "store" and \
+        se[0].kind == "store"
+    if ok:
+        want_u = ("call", "builtins.next",
+                  (("call", "builtins.iter", (VAL,), ()),), ())
+        want_s = ("mcall", ("const", "; "), "join",
+                  (("call", "builtins.sorted", (VAL,), ()),), ())
+        ok = (ue[0].key == KEY and se[0].key == KEY
+              and ue[0].value == want_u and se[0].value == want_s)
+        cu, cs = _loop_conds(cfg, T, ue[0].stmt), _loop_conds(
+            cfg, T, se[0].stmt)
+        LEN = ("call", "builtins.len", (VAL,), ())
+        try:
+            for n in (1, 2, 3):
+                def atoms(t, n=n):
+                    if t == LEN:
+                        return n
+                    raise KeyError(t)
+                gu = all(bool(ev_term(t, atoms)) == o for t, o in cu)
+                gs = all(bool(ev_term(t, atoms)) == o for t, o in cs)
+                if gu != (n == 1) or gs != (n != 1):
+                    bad.append((n, gu, gs))
+        except (EvUnknown, KeyError) as e:
+            bad.append(("cannot evaluate", str(e)[:80]))
+    ctx.check(ok and not bad, "C16b-unique-shared-split", f,
+              "a peptide is unique iff exactly one group contains it (then "
+              "mapped to that group), otherwise shared and listing all its "
+              "groups in sorted order - decided on the grouped peptide map",
+              f"unique stores: {[(show(e.key, 40), show(e.value, 60)) for e in ue]}"
+              f"; shared stores: {[(show(e.key, 40), show(e.value, 60)) for e in se]}"
+              f"; (groups, unique, shared) deviating: {bad}",
+              node=ue[0].node if ue else f.node)
+    ctx.check(ok, "C16d-grouped-before-split", f,
+              "the unique/shared split runs on the grouped peptide map",
+              "grouping result is not what the split iterates",
+              node=ue[0].node if ue else f.node)
+    # ---- decoy pairing
+    de = by_root(D)
+    ok = len(de) == 1 and de[0].kind == "store"
+    why = f"updates of {D}: {[e.kind for e in de]}"
+    if ok:
+        k = de[0].key
+        cd = _loop_conds(cfg, T, de[0].stmt)
+        PRE = ("param", "decoy_prefix")
+        SW = ("mcall", k, "startswith", (PRE,), ())
+        ok = (k[0] == "elem" and any(
+            isinstance(x, tuple) and x[:2] == ("var", PROTEINS)
+            for x in walk_term(k[1]))
+            and de[0].value == ("bin", "+", PRE, k)
+            and cd == [(SW, False)])
+        why = (f"{D}[{show(k, 40)}] = {show(de[0].value, 60)} under "
+               f"{[(show(c, 60), o) for c, o in cd]}")
+    ctx.check(ok, "C16b-decoy-pairing", f,
+              "every non-decoy protein is paired with decoy_prefix + its "
+              "name", why, node=de[0].node if de else f.node)
+    ok = (kw.get("decoy_prefix") == ("param", "decoy_prefix")
+          and set(kw) == {"decoy_prefix", "peptide_map", "shared_peptides",
+                          "protein_map", "has_decoys"})
     ctx.check(ok, "C16b-maps-returned", f,
               "the Proteins object carries the unique map, the shared map "
               "and the pairing under their own names",
-              f"{[ast.unparse(c)[:120] for c in call]}", node=f.node)
-    gp = [n for n in ast.walk(f.node) if isinstance(n, ast.Assign)
-          and "_group_proteins" in ast.unparse(n.value)]
-    ok = len(gp) == 1 and ast.unparse(gp[0]) == \
-        "proteins, peptides = _group_proteins(proteins, peptides)" and \
-        cfg.every_path_passes(cfg.entry.id, cfg.node_of(sl).id,
-                              {cfg.node_of(gp[0]).id})
-    ctx.check(ok, "C16d-grouped-before-split", f,
-              "the unique/shared split runs on the grouped peptide map",
-              "grouping result is not what the split iterates", node=sl)
+              f"{[ast.unparse(c)[:120] for c in call]}", node=call[0])
 
 
 def _no_mutation_while_iterating(ctx, funcs):
